@@ -6,7 +6,7 @@ Import ListNotations.
 From Coq Require Import ZArith.
 From CXV Require Import Gen.TokTy Gen.ParserTables Parse.Balanced Gen.Blocks Parse.BlocksSM.
 From CXV Require Import Base.Regex Base.Cost Gen.LexRules Lex.PlyLoop Gen.StreamTables Stream.TokBuf Fmt.TokFmt PP.Filters Misc.ReprModel Gen.Schema Parse.Fold Parse.Declarator Parse.DeclSpec Parse.EnumList Parse.BaseClause Parse.NsHeader Parse.Specs Parse.VarStmt Parse.FnTail Parse.Init Parse.Members Parse.MethodTail Parse.Template Parse.PQName Parse.Using Parse.EnumDecl Parse.ClassEnum Parse.TemplateArg Parse.CtorDtor Parse.ParamsX Parse.DeclStmt Parse.TemplateStmt Parse.MemberStmt Parse.OpName.
-From CXV Require Parse.DispatchLang Gen.Dispatch.
+From CXV Require Parse.DispatchLang Gen.Dispatch Parse.FinishClass.
 From CXV Require Parse.Requires.
 Open Scope N_scope.
 
@@ -841,8 +841,29 @@ Definition run_dispatch (args : list N) : list N :=
   | _ => [3; 0]
   end.
 
+(* 112: what follows the closing brace of a class / enum definition (_finish_class_or_enum): declarator budget, in-class, typedef,
+   anonymous, struct-or-union flags, enclosing class id, '~' id, the id of the definition's name, const, volatile, nine specifier
+   flags, then tokens.  Output: 0, rest length, kind (0 nothing, 1 implicit field, 2 declarations, 3 members), count, entries as
+   for 106 / 108 *)
+Definition run_finish_class (args : list N) : list N :=
+  match args with
+  | n :: ic :: td :: an :: su :: cls :: dcls :: bn :: c :: v :: f1 :: f2 :: f3 :: f4 :: f5 :: f6 :: f7 :: f8 :: f9 :: r =>
+      let toks := dec_tks r in
+      let b x := negb (x =? 0) in
+      let m := mkMods (b f1) (b f2) (b f3) (b f4) (b f5) (b f6) (b f7) (b f8) (b f9) in
+      match FinishClass.finish_class (N.to_nat n) (4 * length toks + 8) (b ic) (b td) (b an) (b su) m cls dcls bn (b c) (b v) toks with
+      | DOk (FinishClass.FinNone, rest) => [0; nlen rest; 0; 0]
+      | DOk (FinishClass.FinImplicitField, rest) => [0; nlen rest; 1; 0]
+      | DOk (FinishClass.FinDecls l, rest) => 0 :: nlen rest :: 2 :: nlen l :: flat_map enc_entry l
+      | DOk (FinishClass.FinMembers l, rest) => 0 :: nlen rest :: 3 :: nlen l :: flat_map enc_mentry l
+      | DErr e => [1; e]
+      end
+  | _ => [1; 0]
+  end.
+
 Definition run_case (cmd : N) (args : list N) : list N :=
   match cmd, args with
+  | 112, _ => run_finish_class args
   | 111, _ => run_dispatch args
   | 110, _ => run_op_name args
   | 109, _ => run_typedef_decl_stmt args
